@@ -1060,6 +1060,13 @@ def _known_key(ck, case: dict, obs: dict, bad: list[str]) -> str | None:
         rest = [b_ for b_ in rest if not sym(b_)]
         if len(rest) < n0:
             keys.append("simplify-returns-piecewise")
+    elif "simplify-returns-piecewise" in known and obs.get("simplify", [""])[:2] == ["raise", "ZeroDivisionError"] \
+            and ops_of(case["tree"]) & {"trunc", "sign"}:
+        # same site under other hash seeds: sympy.simplify itself trips over the branch while rewriting sign()
+        n0 = len(rest)
+        rest = [b_ for b_ in rest if b_.split(":")[0] not in ("simplify", "shape_simplify")]
+        if len(rest) < n0:
+            keys.append("simplify-returns-piecewise")
     if rest:
         attr = sympy_attribution(case, obs, rest)
         if attr is None:
